@@ -63,5 +63,23 @@ CHECKS = {
     },
 }
 
+CHECKS["C02"] = {
+    "pkg": "./checks/c02",
+    "level": "exploration",
+    "technique": "model-based stateful property testing (rapid state machine) against an independent msat money ledger over an adversarial Lightning model",
+    "rule": ("rapid state machine over a real mint on a fresh SQLite directory and the Lightning network model (backend charges the full fee limit): configuration drawn from fee ppk {0,1,100,999,1000,2500}, fee reserve policy {0, ceil 1%, const}, MPP on/off; "
+             "operations fund / mint (exact, less, over by 1, duplicate output, unknown keyset, non-key amount) / swap (honest and adversarial: outputs over by 1, overflowing output sum, fee ignored, inflated input amount, inactive/unknown keyset outputs, duplicate and re-signed outputs, duplicate inputs) / melt quote (external sat, external msat precision, internal, MPP) / melt with LN outcome {success, pending, failed, transport error with truth none/inflight/succeeded} / underfunded melt / resolve / polls / checkstate / rotation / restart. "
+             "oracle after every step: 1000*(issued - redeemed - locked-by-succeeded-payment) + outflow <= inflow in msat, plus local forms (swap outputs <= inputs - fee, mint outputs <= quote amount, melt inputs >= amount + fee_reserve + fee, fee limit handed to LN <= fee_reserve, msat paid <= 1000*quote amount). "
+             "non-trivial: history with >=1 swap charging a fee > 0, or >=1 settled melt, or >=1 adversarial request that reached validation; distinct = hash of the operation trace."),
+    "level_text": ("Random and adversarial operation histories are executed against the real mint (real SQLite, real signing) and an independent millisatoshi ledger fed only by responses and by the Lightning model's ground truth; the inequality and its four local forms are checked after every step and failures shrink to a minimal history. "
+                   "Exploration is the right level for a property over all histories and configurations: it samples thousands of histories per run but cannot exclude a violation confined to a history shape the generator does not produce."),
+    "level_note": "Trusted: the Lightning model (harness/lnmodel) as a faithful rendering of the lightning.Client contract with an adversarial fee policy; the client helper's unblinding; SQLite. Sequential histories only (concurrency is C01/C03).",
+    "assumptions": ["Lightning backend modelled by harness/lnmodel (charges the full fee limit; answers scripted)", "sequential request histories; schedules are covered by C01/C03"],
+    "units": [
+        plain("regress", "^TestRegress"),
+        rapid("ledger", "^TestLedger$", 480, 9600, qs=8, ts=16),
+    ],
+}
+
 NOT_APPLICABLE = {}
 HOOK_COMMITS = []
